@@ -1,5 +1,5 @@
 """C01 - accepted mail is never lost: every recipient reaches a final disposition."""
-from vf import qm, qmgen
+from vf import qm, qmgen, hyp
 from vf.props import c03
 
 ID = 'C01'
@@ -24,10 +24,29 @@ def run_shard(ctx):
     qmgen.drive_sequences(ctx, OWN, 4 if ctx.thorough else 3, nontrivial)
     qmgen.drive_enumeration(ctx, OWN, bks, 4 if ctx.thorough else 3, 3)
     strat = qmgen.history(qmgen.configs(bks, pools=True, announce=True, bounce=True), WEIGHTS)
-    qmgen.drive_histories(ctx, OWN, strat, ctx.n(1500, 25000), nontrivial)
-    qmgen.drive_histories(ctx, OWN, qmgen.burst_history(), ctx.n(1500, 25000), nontrivial, salt=7)
+    qmgen.drive_histories(ctx, OWN, strat, ctx.n(1000, 25000), nontrivial)
+    qmgen.drive_histories(ctx, OWN, qmgen.burst_history(), ctx.n(1000, 25000), nontrivial, salt=7)
+
+
+    # second engine: the real relays (SMTP, LMTP, pipe in both modes, HTTP) in front of scripted downstreams
+    from vf import relaykinds
+
+    def one(case):
+        fails = [(s_, m) for s_, m in relaykinds.run_case(case) if s_.startswith('C01')]
+        ctx.record(repr(case), len(case['rounds']) >= 1, labels=['relay-kinds', 'kind=' + case['kind']], case=case, failures=fails)
+    hyp.drive(ctx, relaykinds.case_strategy, one, ctx.n(200, 4000), salt=11)
 
 
 def replay(case):
+    if case.get('family') == 'relay-kinds':
+        from vf import relaykinds
+        try:
+            case = dict(case, nrcpt=max(1, min(3, int(case['nrcpt']))), backoff=[float(x) for x in case.get('backoff', [])][:4],
+                        rounds=[r for r in case.get('rounds', []) if isinstance(r, dict)])
+            if case.get('kind') not in ('smtp', 'lmtp', 'pipe', 'pipe-one', 'http'):
+                return []
+            return [(s_, m) for s_, m in relaykinds.run_case(case) if s_.startswith('C01')]
+        except (KeyError, ValueError, TypeError):
+            return []
     fails, _, _ = qm.run_history(case['cfg'], case.get('actions', []), OWN)
     return fails
